@@ -8,3 +8,6 @@ import OxyModel.Props.C01
 #print axioms C01.C01_change_resets
 #print axioms C01.C01_after_any_history
 #print axioms C01.C01_concurrent
+#print axioms C01.C01_upsert_options
+#print axioms C01.C01_failed_upsert_weight
+#print axioms C01.C01_nextFrom_eq_next
